@@ -79,7 +79,7 @@ func NewContractSet() *ContractSet {
 	return &ContractSet{ByKey: map[string]*Contract{}, Preds: map[string]*PredDecl{}, Defs: map[string]*SpecDef{}}
 }
 
-var clauseRe = regexp.MustCompile(`^(spawn\s+|site\s+\S+\s+)?(requires|ensures|assigns|ghostset|nopanic|noreturn|pure|loop\s+\d+\s+invariant)(\[[A-Za-z0-9_, ]*\])?\s*(.*)$`)
+var clauseRe = regexp.MustCompile(`^(spawn\s+|site\s+\S+\s+)?(requires|ensures|assigns|ghostset|nopanic|noreturn|pure|inline|loop\s+\d+\s+invariant)(\[[A-Za-z0-9_, ]*\])?\s*(.*)$`)
 var labelRe = regexp.MustCompile(`^([A-Za-z_][A-Za-z0-9_.\-=<>+,]*):\s+(.*)$`)
 var headRe = regexp.MustCompile(`^(func|extern|functype|iface)\s+(.*)$`)
 
@@ -229,7 +229,7 @@ func (cs *ContractSet) finishClause(c *Clause) {
 				c.Targets = append(c.Targets, t)
 			}
 		}
-	case "nopanic", "noreturn", "pure":
+	case "nopanic", "noreturn", "pure", "inline":
 	default:
 		n, err := parseSpec(c.Text)
 		if err != nil {
